@@ -648,13 +648,27 @@ def _run_param(case):
     class _NotConv(Exception):
         pass
 
+    class _Branch(Exception):
+        pass
+
     try:
         ref = _energy(Z, X, q, m, sett_fd, {n: base[n].clone() for n in names})
+        # the reference must be the stable self-consistent solution: if adaptive mixing finds a lower one than Pulay
+        # (solver-dependent solutions / saddle landings are C04's subject), the finite differences are taken there
+        alt_sett = _sett(method, names, 0, [1])
+        alt = _energy(Z, X, q, m, alt_sett, {n: base[n].clone() for n in names})
+        if not alt["notconverged"] and (ref["notconverged"] or
+                                        float(alt["Etot"].detach()) < float(ref["Etot"].detach()) - 1e-6):
+            C["reference_switched_to_lower_scf_solution"] += 1
+            sett_fd.clear()
+            sett_fd.update(alt_sett)
+            ref = alt
     except Exception as exc:
         return {"inconclusive": "reference evaluation raised %r" % (exc,)}
     if ref["notconverged"]:
         return {"ineligible": "reference SCF not converged"}
     norb = ref["norb"]
+    E_ref = float(ref["Etot"].detach())
     cvec = {"emo": torch.tensor(g.normal(size=norb)), "q": torch.tensor(g.normal(size=nat))}
     e = ref["e"].detach().numpy()
     spacing = float(np.min(np.diff(np.sort(e)))) if norb > 1 else 9.0
@@ -671,12 +685,20 @@ def _run_param(case):
                 tm[n] = base[n] - h * vdir[n]
                 a, b = value(tp), value(tm)
                 C["fd_energy_evaluations"] += 2
+                if not (abs(a["Etot"] + b["Etot"] - 2 * E_ref) <= 1e-3 + 0.2 * abs(a["Etot"] - b["Etot"])):
+                    raise _Branch()
                 nf = [k for k in a if not (math.isfinite(a[k]) and math.isfinite(b[k]))]
                 if nf and n not in nonfinite:
                     nonfinite[n] = nf
                 ests.append({k: (a[k] - b[k]) / (2 * h) for k in a})
         except _NotConv:
             fd_bad[n] = "not converged at a displaced parameter"
+            continue
+        except _Branch:
+            # the displaced SCF landed on another self-consistent solution (energy jumps by far more than the step
+            # explains): no derivative to compare with
+            fd_bad[n] = "a displaced evaluation converged to another SCF solution"
+            C["fd_other_scf_solution_skipped"] += 1
             continue
         fd[n] = {}
         for k in ests[0]:
@@ -732,6 +754,11 @@ def _run_param(case):
                 raise _Phase("accept", exc)
             if out["notconverged"]:
                 return None, "notconverged"
+            if not (abs(float(out["Etot"].detach()) - E_ref) <= 1e-6):
+                # this solver converged to ANOTHER self-consistent solution than the reference configuration the
+                # finite differences are taken with (solver-dependent SCF solutions are C04's subject, not C07's)
+                C["ad_config_on_other_scf_solution"] += 1
+                return None, "other-solution"
             sc = _scalars(out, cvec)
             outs = ["Etot", "Hf"] + (list(DENSITY_OUTPUTS) if sb >= 1 else [])
             res = {}
@@ -814,6 +841,9 @@ def _run_param(case):
         try:
             res, st = ad_run(cfg, [])
         except _Phase as exc:
+            if exc.phase.startswith("backward-raised") and "did not converge" in str(exc).lower():
+                C["backward_solver_did_not_converge"] += 1   # same standing as a non-convergence flag
+                continue
             mech = _classify_exc(exc.exc)
             viol.append({"clause": "%s/%s" % (exc.phase, mode), "mech": mech,
                          "detail": {"config": cfg, "exception": str(exc)[:400],
@@ -855,7 +885,7 @@ def _run_param(case):
                              "detail": {"config": cfg, "exception": str(exc)[:400]}})
                 continue
         if res is None:
-            C["ad_run_not_converged"] += 1
+            C["ad_run_not_converged_or_other_solution"] += 1
             continue
         if observed_with:
             C["observed_with_deepcopy_bypass"] += 1
